@@ -117,8 +117,7 @@ def run(tier):
         for ed in ("2021", "2024"):
             if tier == "quick" and ed == "2024" and n % 3:
                 continue
-            pre, argv = rustprobe.replay(envs, cmd, u["rs"], os.path.join(u["out"], "o" + ed), emit="metadata", edition=ed,
-                                         extra=["-Dwarnings", "--cap-lints=warn"] if False else ["-Dwarnings"])
+            pre, argv = rustprobe.replay(envs, cmd, u["rs"], os.path.join(u["out"], "o" + ed), emit="metadata", edition=ed, extra=["-Dwarnings"], drop_check_cfg=True)
             cmds.append((f"{n}:{ed}", pre + argv))
     res = run_commands(cmds, wd, workers=16, timeout_ms=600000)
 
@@ -149,7 +148,7 @@ def run(tier):
         if u["gen"] != "ok" or n in failed:
             continue
         text = open(u["rs"]).read()
-        sec = type_section(ss._squeeze(text)) or type_section(text)
+        sec = type_section(text)
         if sec is None:
             out.violation("no-component-type-section", f"generated Rust for {name_of(u)} [{u['variant'] or 'default'}] embeds no component-type section", ctx_of(u))
             continue
